@@ -14,6 +14,7 @@ CHECKS = {
     'C05': dict(level='exploration', runs=_e1('C05', 'h_e1x'), percase=5, deadline=dict(quick=150, thorough=1500)),
     'C10': dict(level='exploration', runs=_e1v('C10', 'h_k', ('ref', 'i64', 'asan')), percase=10, deadline=dict(quick=150, thorough=1500)),
     'C11': dict(level='exploration', runs=_e1v('C11', 'h_k', ('ref', 'asan')), percase=5, deadline=dict(quick=150, thorough=1500)),
+    'C14': dict(level='exploration', runs=_e1v('C14', 'h_k2', ('ref', 'obl', 'asan')), percase=5, deadline=dict(quick=150, thorough=1500)),
     'C12': dict(level='exploration', runs=_e1('C12', 'h_e1x'), percase=5, deadline=dict(quick=150, thorough=1500)),
     'C13': dict(level='exploration', runs=_e1('C13', 'h_e1x'), percase=5, deadline=dict(quick=150, thorough=1500)),
     'C06': dict(level='model_checking', runs=_e1('C06', 'h_e3'), percase=20, deadline=dict(quick=150, thorough=1500),
@@ -76,3 +77,7 @@ META['C10'] = dict(engine='E1 small-scope enumerator', design_ref='5/C10', techn
 META['C11'] = dict(engine='E1 small-scope enumerator', design_ref='5/C11', technique='bounded exhaustive enumeration of patterns x magnitude alphabets (subnormal .. near overflow) with definition-level oracle',
     text='All patterns of seven small shapes x 12 magnitude-assignment schemes over a 9-level alphabet (smallest subnormal, sfmin/2, sfmin, tiny, 1, 3, huge, 1/(4 sfmin), near overflow) with one extreme entry at every position x 4 types: info names the first all-zero row/column; R, C positive, finite, in the safe range; R_i*max|a_i.| = 1 and C_j*max|r_i a_ij| = 1 to 4 eps unless clamped; rowcnd/colcnd/amax equal their definitions; xlaqgs follows the threshold rule and multiplies every stored entry by exactly the selected factors (bitwise, any association order).',
     note='Complex magnitudes are |re|+|im| as in the library. Known findings F19 (underflow makes a non-zero column look empty) and F20 (R*C overflow in xlaqgs) are reported as KNOWN-FINDING.')
+
+META['C14'] = dict(engine='E1 small-scope enumerator', design_ref='5/C14', technique='bounded exhaustive enumeration of factor structures x flag spellings x alpha/beta with dense reference operations',
+    text='sp_xtrsv over all 96 combinations of uplo{L,U,l,u} x trans{N,T,C,n,t,c} x diag{U,N,u,n} on factors with singleton, multi-column and relaxed supernodes; xgstrs over Trans x nrhs{0..3} x ldb{n,n+1,n+3}; sp_xgemv / sp_xgemm over six trans spellings x alpha,beta in {0,1,-1,2.5,i} on square and rectangular A with y pre-filled with NaN when beta=0: componentwise residual / product bounds against the dense stored operand, info=0 for every documented spelling, only the output is written, padding untouched, every rhs column judged against its own b.',
+    note='(uplo=L, diag=N) has no defined operand (the diagonal slots of the supernodal block hold U) and is skipped. Runs with bundled kernels, with vendor BLAS (the tested configuration) and under ASan. Known finding F21 (diag flag ignored for unit-upper) is reported as KNOWN-FINDING; F4 and F12 were repaired by fix: commits.')
